@@ -114,6 +114,13 @@ class QHalf(Q.QOracle):
       else:
         self.ctx.probe("trace_after_variable_build")
 
+  def knob_is_variable(self, qi, q):
+    # the SHADOW state decides: once build(use_variables=True) was requested
+    # the knob is supposed to be variable-backed, so a later trace is judged
+    # (an implementation that silently keeps a python float is then caught
+    # by the traced call not following updates)
+    return self.isvar[qi]
+
   def on_restart(self, qi, op, ok):
     tf = tf_setup()
     q = self.w.qs[qi]
@@ -242,11 +249,17 @@ def directed_q():
     kw = dict(spec["kw"])
     if kw.get("use_stochastic_rounding"):
       continue
-    for order in ("float", "var_then_trace", "trace_then_var"):
+    for order in ("float", "var_then_trace", "trace_then_var",
+                  "call_var_trace"):
       ops = []
       sub = 0
       if order == "var_then_trace":
         ops += [{"k": "BUILDV", "q": 0}, {"k": "TRACE", "q": 0}]
+      elif order == "call_var_trace":
+        # built with python-float storage by a first call, then switched to
+        # variable-backed storage (what QNoiseScheduler.set_quantizers does)
+        ops += [{"k": "CALL", "q": 0, "t": tensors[0], "sub": 98},
+                {"k": "BUILDV", "q": 0}, {"k": "TRACE", "q": 0}]
       elif order == "trace_then_var":
         ops += [{"k": "TRACE", "q": 0},
                 {"k": "CALL", "q": 0, "t": tensors[0], "sub": 99},
